@@ -1,5 +1,6 @@
-(* With both switches on, the functions of SchedDefs.v are the shared ones of VmDefs.v / VmExec.v
-   (the ghost counters and visit logs erased): the extension describes the same code. *)
+(* With both switches off, the functions of SchedDefs.v are the shared ones of VmDefs.v / VmExec.v (the ghost
+   counters and visit logs erased; an empty restart, which SchedDefs counts separately, is an `Executed`
+   iteration of the shared do_iter): the extension describes the same code. *)
 From Coq Require Import String Ascii ZArith List Bool Lia Arith.
 From SqfVerif Require Import Gen.DiagCodes VM.VmDefs VM.VmExec VM.SchedDefs.
 Import ListNotations.
@@ -9,14 +10,14 @@ Opaque frame_fuel exec_fuel.
 
 Definition map_res {A B} (f:A->B) (x:res A) : res B :=
   match x with Ok a => Ok (f a) | Unsupported w => Unsupported w | Hang w => Hang w | UB w => UB w end.
-Definition lift_f (x:fres) : fres2 := match x with FDone => F2Done | FOk => F2Ok end.
-Definition lift_iter (x:iter) : iter2 :=
-  match x with Continue r => Continue2 r | Executed r => Executed2 r | Return x r => Return2 x r end.
+Definition lift_f (x:fres) : fres2 := match x with FDone => F2Done | FOk => F2Ok | FRestarted => F2Restarted end.
+Definition erase_iter (x:iter2) : iter :=
+  match x with Continue2 r => Continue r | Executed2 r => Executed r | Restarted2 r => Executed r | Return2 x r => Return x r end.
 Definition erase_pass (p:passres2) : passres :=
   match p with PassDone2 x r _ => PassDone x r | PassExit2 x r _ => PassExit x r end.
 
-Lemma frame_next2_old fuel : forall r c,
-  frame_next2 true fuel r c = map_res (fun '(f, r, c) => (lift_f f, r, c)) (frame_next fuel r c).
+Lemma frame_next2_shared fuel : forall r c,
+  frame_next2 false fuel r c = map_res (fun '(f, r, c) => (lift_f f, r, c)) (frame_next fuel r c).
 Proof.
   induction fuel; intros r c; cbn [frame_next2 frame_next map_res]; auto.
   destruct (c_frames c) as [|f rest]; auto.
@@ -24,15 +25,16 @@ Proof.
   (match goal with |- context [f_exit ?x] => destruct (f_exit x) as [bh|] end; auto);
   (match goal with |- context [if ?x then _ else _] => destruct x end; auto);
   (match goal with |- context [enact ?a ?b0 ?c0] => destruct (enact a b0 c0) as [[[[br b'] r2] c2]| | |] end; cbn [bindr map_res]; auto);
-  destruct br; cbn [negb andb map_res lift_f]; auto.
+  destruct br; cbn [negb andb map_res lift_f]; auto;
+  match goal with |- context [top_code_empty ?x] => destruct (top_code_empty x) end; auto.
 Qed.
 
-Lemma do_iter2_old r : do_iter2 true r = map_res lift_iter (do_iter r).
+Lemma do_iter2_shared r : map_res erase_iter (do_iter2 false r) = do_iter r.
 Proof.
   unfold do_iter2, do_iter. destruct (r_exit_req r); auto.
   destruct (cur r) as [c|]; auto. destruct (c_suspended c); auto. destruct (c_frames c) eqn:Fr; auto.
   destruct (r_state r); auto.
-  rewrite frame_next2_old. destruct (frame_next frame_fuel r c) as [[[fr r1] c1]| | |]; cbn [bindr map_res]; auto.
+  rewrite frame_next2_shared. destruct (frame_next frame_fuel r c) as [[[fr r1] c1]| | |]; cbn [bindr map_res]; auto.
   destruct (r_err r1).
   { destruct (on_error (upd_cur r1 c1)) as [[rec r2]| | |]; cbn [bindr map_res]; auto. destruct rec; auto. }
   unfold deadline_test, abort_run.
@@ -56,19 +58,21 @@ Proof.
       match goal with |- context [exec_instr i ?a c1] => destruct (exec_instr i a c1) as [[r3 c5]| | |] end; cbn [bindr map_res]; auto.
       destruct (negb (r_err (upd_cur r3 c5))); auto.
       destruct (on_error (upd_cur r3 c5)) as [[rec r5]| | |]; cbn [bindr map_res]; auto. destruct rec; auto.
+  - destruct (Z.eqb (r_max_runtime r1) 0); auto.
+    unfold now. destruct (Z.ltb _ _); auto.
 Qed.
 
-Lemma execute_do2_old fuel : forall r n ki kr,
-  map_res (fun '(x, r, _) => (x, r)) (execute_do2 true fuel r n ki kr) = execute_do fuel r n.
+Lemma execute_do2_shared fuel : forall r n ki kr,
+  map_res (fun '(x, r, _) => (x, r)) (execute_do2 false fuel r n ki kr) = execute_do fuel r n.
 Proof.
   induction fuel; intros r n ki kr; cbn [execute_do2 execute_do map_res]; auto.
   destruct (r_exit_req r); auto. destruct n; auto.
-  rewrite do_iter2_old. destruct (do_iter r) as [it| | |]; cbn [bindr map_res]; auto.
-  destruct it; cbn [lift_iter]; auto.
+  rewrite <- do_iter2_shared. destruct (do_iter2 false r) as [it| | |]; cbn [bindr map_res]; auto.
+  destruct it; cbn [erase_iter]; auto.
 Qed.
 
-Lemma visit_ctx_old r i :
-  map_res (fun '(x, r, _) => (x, r)) (visit_ctx true true r i) =
+Lemma visit_ctx_shared r i :
+  map_res (fun '(x, r, _) => (x, r)) (visit_ctx false false r i) =
   (let r00 := set_active r (Some i) in
    match cur r00 with
    | None => UB "context index"
@@ -79,73 +83,72 @@ Lemma visit_ctx_old r i :
      if c_suspended c then
        let (t, r1) := now r0 in
        if Z.leb (c_wakeup c) t then run (upd_cur r1 (set_suspended c false (c_wakeup c)))
-       else Ok (ROk, r1)
+       else
+         let '(expired, r2) :=
+           if Z.eqb (r_max_runtime r1) 0 then (false, r1)
+           else let (t', r') := now r1 in (Z.ltb (r_max_runtime r1 + r_run_ts r1) t', r') in
+         if expired then
+           Ok (RRuntimeError, set_msgs (set_errflag (set_exit_req (logmsg r2 d_MaximumRuntimeReached) true) false) [])
+         else Ok (ROk, r2)
      else run r0 end).
 Proof.
   unfold visit_ctx. cbv zeta. destruct (cur (set_active r (Some i))) as [c00|]; auto.
   set (c := if c_terminate c00 then _ else c00).
   assert (Run : forall r1, map_res (fun '(x, r, _) => (x, r))
-            (bindr (execute_do2 true exec_fuel r1 (r_slice r1) 0 0)
+            (bindr (execute_do2 false exec_fuel r1 (r_slice r1) 0 0)
                (fun '(x, r2, (ki, kr)) => Ok (x, r2, {| v_id := c_id c; v_entered := true; v_instr := ki; v_restarts := kr; v_result := x |})))
             = execute_do exec_fuel r1 (r_slice r1)).
-  { intro r1. rewrite <- (execute_do2_old exec_fuel r1 (r_slice r1) 0 0).
-    destruct (execute_do2 true exec_fuel r1 (r_slice r1) 0 0) as [[[x r2] [ki kr]]| | |]; auto. }
+  { intro r1. rewrite <- (execute_do2_shared exec_fuel r1 (r_slice r1) 0 0).
+    destruct (execute_do2 false exec_fuel r1 (r_slice r1) 0 0) as [[[x r2] [ki kr]]| | |]; auto. }
   destruct (c_suspended c); [|apply Run].
-  unfold now. destruct (Z.leb _ _); [apply Run|reflexivity].
+  unfold now. destruct (Z.leb _ _); [apply Run|].
+  unfold deadline_test, abort_run, now. cbn [r_max_runtime set_clock rt_with].
+  destruct (Z.eqb _ 0); [reflexivity|]. destruct (Z.ltb _ _); reflexivity.
 Qed.
 
-Lemma start_pass2_old fuel : forall r i x log,
-  map_res erase_pass (start_pass2 true true fuel r i x log) = start_pass fuel r i x.
+Lemma start_pass2_shared fuel : forall r i x log,
+  map_res erase_pass (start_pass2 false false fuel r i x log) = start_pass fuel r i x.
 Proof.
   induction fuel; intros r i x log; cbn [start_pass2 start_pass map_res]; auto.
   destruct (Nat.leb _ _); auto.
-  pose proof (visit_ctx_old r i) as V. cbv zeta in V.
+  pose proof (visit_ctx_shared r i) as V. cbv zeta in V.
   destruct (cur (set_active r (Some i))) as [c00|] eqn:Cu.
   2:{ unfold visit_ctx. rewrite Cu. reflexivity. }
-  match goal with |- _ = bindr ?s _ => change s with
-    (if c_suspended (if c_terminate c00 then set_suspended (set_values (set_frames c00 []) []) false (c_wakeup c00) else c00)
-     then let (t, r1) := now (upd_cur (set_active r (Some i)) (if c_terminate c00 then set_suspended (set_values (set_frames c00 []) []) false (c_wakeup c00) else c00)) in
-          if Z.leb (c_wakeup (if c_terminate c00 then set_suspended (set_values (set_frames c00 []) []) false (c_wakeup c00) else c00)) t
-          then execute_do exec_fuel (upd_cur r1 (set_suspended (if c_terminate c00 then set_suspended (set_values (set_frames c00 []) []) false (c_wakeup c00) else c00) false (c_wakeup (if c_terminate c00 then set_suspended (set_values (set_frames c00 []) []) false (c_wakeup c00) else c00))))
-                 (r_slice (upd_cur r1 (set_suspended (if c_terminate c00 then set_suspended (set_values (set_frames c00 []) []) false (c_wakeup c00) else c00) false (c_wakeup (if c_terminate c00 then set_suspended (set_values (set_frames c00 []) []) false (c_wakeup c00) else c00)))))
-          else Ok (ROk, r1)
-     else execute_do exec_fuel (upd_cur (set_active r (Some i)) (if c_terminate c00 then set_suspended (set_values (set_frames c00 []) []) false (c_wakeup c00) else c00))
-            (r_slice (upd_cur (set_active r (Some i)) (if c_terminate c00 then set_suspended (set_values (set_frames c00 []) []) false (c_wakeup c00) else c00)))) end.
-  rewrite <- V. clear V.
-  destruct (visit_ctx true true r i) as [[[x1 r2] v]| | |]; cbn [bindr map_res]; auto.
+  cbv zeta. rewrite <- V. clear V.
+  destruct (visit_ctx false false r i) as [[[x1 r2] v]| | |]; cbn [bindr map_res]; auto.
   destruct (r_exit_req r2); auto.
   destruct x1; auto.
   match goal with |- context [r_ctxs ?a] => destruct (r_ctxs a) end; auto.
 Qed.
 
-Lemma start_loop2_old fuel : forall r x ps,
-  map_res (fun '(x, r, _) => (x, r)) (start_loop2 true true fuel r x ps) = start_loop fuel r x.
+Lemma start_loop2_shared fuel : forall r x ps,
+  map_res (fun '(x, r, _) => (x, r)) (start_loop2 false false fuel r x ps) = start_loop fuel r x.
 Proof.
   induction fuel; intros r x ps; cbn [start_loop2 start_loop map_res]; auto.
   destruct (r_ctxs r); auto.
-  rewrite <- (start_pass2_old exec_fuel r 0 x []).
-  destruct (start_pass2 true true exec_fuel r 0 x []) as [p| | |]; cbn [bindr map_res]; auto.
+  rewrite <- (start_pass2_shared exec_fuel r 0 x []).
+  destruct (start_pass2 false false exec_fuel r 0 x []) as [p| | |]; cbn [bindr map_res]; auto.
   destruct p; cbn [erase_pass]; auto.
 Qed.
 
-Theorem execute_sw_old a r :
-  map_res (fun '(x, r, _) => (x, r)) (execute_sw true true a r) = execute a r.
+Theorem execute_sw_shared a r :
+  map_res (fun '(x, r, _) => (x, r)) (execute_sw false false a r) = execute a r.
 Proof.
   destruct a; cbn [execute_sw execute].
   - destruct (r_run r); auto.
-    rewrite <- start_loop2_old with (ps := []).
-    match goal with |- context [start_loop2 true true exec_fuel ?a ?b ?c] => destruct (start_loop2 true true exec_fuel a b c) as [[[x r1] ps]| | |] end; cbn [bindr map_res]; auto.
+    rewrite <- start_loop2_shared with (ps := []).
+    match goal with |- context [start_loop2 false false exec_fuel ?a ?b ?c] => destruct (start_loop2 false false exec_fuel a b c) as [[[x r1] ps]| | |] end; cbn [bindr map_res]; auto.
   - destruct (r_state r); destruct (r_run r); reflexivity.
   - destruct (r_state r); destruct (r_run r); reflexivity.
   - destruct (r_run r); auto.
-    match goal with |- context [execute_do exec_fuel ?a 1] => rewrite <- (execute_do2_old exec_fuel a 1 0 0);
-      destruct (execute_do2 true exec_fuel a 1 0 0) as [[[x r1] [ki kr]]| | |] end; cbn [bindr map_res]; auto.
+    match goal with |- context [execute_do exec_fuel ?a 1] => rewrite <- (execute_do2_shared exec_fuel a 1 0 0);
+      destruct (execute_do2 false exec_fuel a 1 0 0) as [[[x r1] [ki kr]]| | |] end; cbn [bindr map_res]; auto.
   - reflexivity.
   - reflexivity.
 Qed.
 
-(* the machine carries both switches: the extension is the shared model *)
-Theorem as_is_is_shared_model a r :
-  defect r sw_restart = true -> defect r sw_idle = true ->
+(* a machine that carries neither switch: the extension is the shared model *)
+Theorem extension_is_shared_model a r :
+  defect r sw_restart = false -> defect r sw_idle = false ->
   map_res (fun '(x, r, _) => (x, r)) (execute2 a r) = execute a r.
-Proof. intros H1 H2. unfold execute2. rewrite H1, H2. apply execute_sw_old. Qed.
+Proof. intros H1 H2. unfold execute2. rewrite H1, H2. apply execute_sw_shared. Qed.
